@@ -18,7 +18,8 @@ Then everything is discharged: `C01_decimal_correct` (untruncated inputs: `Numbe
 `SlowDomain` from `lemire_estimate_facts`), `C01_decimal_correct_all` (truncated inputs the two-pass wrapper decides),
 and **`C01_decimal_correct_slow`** — every input of a non-`compact` decimal build, any number of digits, no residual
 hypothesis (`Props.C01Trunc`: what `lemire` hands to the slow path for a truncated mantissa; `Props.C01Slow`:
-`truncation_invariant_proved`, the `b = +∞` case). `C01_decimal_full : Prop` adds `compact` builds.
+`truncation_invariant_proved`, the `b = +∞` case); `C01_decimal_correct_compact` — the same for `compact` builds
+(`Props.C01Compact`: Bellerophon's two-sided estimate); together **`C01_decimal_full_proved`**: every build.
 -/
 namespace LexVerif.Props.C01Final
 open LexVerif.Spec LexVerif.Model LexVerif.Model.ParseFloatAlgo
